@@ -438,6 +438,7 @@ func (s *Server) Reset(reason string, timeoutMs int64) (*statejson.ResetDescript
 	}()
 
 	done := <-s.ResetDoneChan
+	verifAt("server.resetBeforeRelease")
 	s.Release()
 
 	if done.ErrorType != "" {
